@@ -128,7 +128,8 @@ func (pass *DisjunctionToType) processDisjunction(visitor *Visitor, schema *ast.
 			continue
 		}
 
-		processedBranch := branch
+		// the branch stays in the disjunction kept as a hint: the field gets a type of its own
+		processedBranch := branch.DeepCopy()
 		processedBranch.Nullable = true
 
 		fields = append(fields, ast.NewStructField(ast.TypeName(processedBranch), processedBranch))
